@@ -479,7 +479,7 @@ fn settle(world: &mut World, sink: &mut Sink, frozen: Option<&str>) -> Result<()
 /// One request of the race alphabet on `key`.
 fn race_request(rng: &mut Rng, key: u64, value: u64, max: i64, reads: bool) -> Req {
     let ttl = rng.pick(&[1_000_000_000u128, 1_000_000_000, 2_000_000_000, 3_000_000_000, 1]);
-    let weight = if rng.chance(4) { rng.pick(&[0i64, -1]) } else { rng.pick(&[1i64, 2, 3, 3, max / 2 + 1, max]) };   // now and then a weight the documented assertion refuses
+    let weight = if rng.chance(4) { rng.pick(&[0i64, -1]) } else { rng.pick(&[1i64, 2, 3, 3, 24, 25, max / 2 + 1, max]) };   // now and then a weight the documented assertion refuses; 24 / 25: what a removed time-to-live leaves of them
     let positive = weight.max(1);
     match rng.below(if reads { 16 } else { 12 }) {
         0 | 1 => Req::PutW(key, value, weight, None),
